@@ -897,7 +897,7 @@ def families(ctx, quick):
                 add("multi-g%d-b%d" % (gi, bi), grammar(order), "plain", "bm")
     for name, g in zoo_:
         add("multi-zoo-" + name, g, "plain", "m")
-    for g in rng.sample(two, 150 if quick else 1500) + rnd[:100 if quick else 2000]:
+    for g in rng.sample(two, min(len(two), 150 if quick else 1500)) + rnd[:100 if quick else 2000]:
         add("multi", g, "plain", "m")
     dguises = ["plain", "comments", "tags", "grouped", "weights", "dense"]
     dec = [g for n, g in zoo_ if not issues(g) & {"nopublic"}] + \
